@@ -98,6 +98,52 @@ def case(args):
         sc.close()
 
 
+def runto_branch_case(args):
+    """a streaming out-port connected to two consumers of which RunTo keeps one: the remaining consumer receives exactly and
+    completely the producer's bytes (nobody else reads the pipe), the other branch does not run, no trace is left"""
+    seed, i = args
+    rng = random.Random(seed * 236887699 + i)
+    n = rng.randint(1, 2)
+    sp = t3.Spec(maxtasks=2 * n + 2, bufsize=rng.choice([1, 128]))
+    paths = []
+    for j in range(n):
+        p = "rb%d.dat" % j
+        sz = rng.choice([1000, 70000, 200000, 600000])
+        sp.files[p] = ("".join(rng.choice("abcdefgh\n") for _ in range(97)) * (sz // 97 + 1))[:sz]
+        paths.append(p)
+    s = sp.src("src", paths)
+    prod = sp.proc(t3.Proc("prod", kind="cattok", ins=[("a", [(s, "out")])], outs=[("o", "{i:a}.stream")], stream_outs=["o"], pause="sleep 0.05"))
+    keep = sp.proc(t3.Proc("cons", kind="cat", ins=[("a", [(prod, "o")])], outs=[("o", "{i:a|basename}.cons")]))
+    sp.proc(t3.Proc("alt", kind="cat", ins=[("a", [(prod, "o")])], outs=[("o", "{i:a|basename}.alt")]))
+    sp.runto = [keep]
+    sp.runto_mode = rng.choice(["N", "R", "P"])
+    sc = t3.Scratch()
+    try:
+        sc.plant(sp.files)
+        impl = t3.run_impl(sc, sp, timeout=60)
+        problems = []
+        if impl["timed_out"]:
+            problems.append(("hang", "RunTo(cons) on a stream with two consumers does not terminate"))
+        elif impl["rc"] != 0 or not impl["returned"]:
+            problems.append(("unexpected-failure", "exit %s: %s" % (impl["rc"], impl["stderr"][-200:])))
+        else:
+            files = t3.data_files(impl["fs"])
+            for p in paths:
+                want = sp.files[p] + "tok_prod\n"
+                got = files.get(p + ".stream.cons")
+                if got != want:
+                    problems.append(("stream-bytes", "the remaining consumer of %s.stream received %d bytes, the producer wrote %d" % (p, len(got or ""), len(want))))
+            if any(k.startswith("alt") for k in t3.started_keys(impl["trace"])):
+                problems.append(("runto-executes-other", "RunTo(cons) executed the cut-off consumer"))
+            lo = t3.leftovers(impl["fs"]) + [p for p in impl["fs"] if p.endswith(".stream")]
+            if lo:
+                problems.append(("stream-left-trace", "left after the run: %s" % lo[:3]))
+        return {"spec": sp.text(with_files=False), "bufsize": sp.bufsize, "problems": problems[:3], "known": [], "ntasks": 2 * n, "rc": impl["rc"], "stderr": impl["stderr"][-300:],
+                "yield": None, "wall": impl["wall"], "sizes": [len(sp.files[p]) for p in paths], "chain": False}
+    finally:
+        sc.close()
+
+
 def run(rep, tier, seed):
     proved = vlib.prove(rep, MODULE, THEOREMS)
     ok, msg = vlib.build_ocaml()
@@ -105,6 +151,7 @@ def run(rep, tier, seed):
         raise RuntimeError("extraction/driver build failed: " + msg[-1500:])
     n = 36 if tier == "quick" else 600
     results = t3.run_many(case, [(seed, i) for i in range(n)])
+    results += t3.run_many(runto_branch_case, [(seed, i) for i in range(n // 4)])
     kf = vlib.known_findings("C17")
     nk = 0
     for r in results:
@@ -118,7 +165,7 @@ def run(rep, tier, seed):
     t3.report_t3(rep, MODULE, proved, results, "T3 streaming pairs / chains / re-run")
     rep.cov["evaluations"] = len(results) * 2
     rep.cov["distinct_nontrivial"] = len({r["spec"] + str(r["sizes"]) for r in results})
-    rep.cov["rule"] = "n in 1..3 streamed items with maxConcurrentTasks >= 2n, payloads from 0 bytes to 200000 bytes (around the 64 KiB pipe buffer in a third of the runs), producer-first or consumer-first delays, pairs and two-stage streaming chains: the consumer's bytes, the file set and the command texts equal the reference evaluator's; nothing at the stream path, no FIFO left; the consumer's audit record has an Upstream entry for the stream naming the producer; then the workflow is run again in place (30 s bound): exit 0, consumer outputs keep inode / mtime / bytes, no leftovers"
+    rep.cov["rule"] = "n in 1..3 streamed items with maxConcurrentTasks >= 2n, payloads from 0 bytes to 200000 bytes (around the 64 KiB pipe buffer in a third of the runs), producer-first or consumer-first delays, pairs and two-stage streaming chains: the consumer's bytes, the file set and the command texts equal the reference evaluator's; nothing at the stream path, no FIFO left; the consumer's audit record has an Upstream entry for the stream naming the producer; a stream with two consumers of which RunTo keeps one (the kept consumer gets all bytes); then the workflow is run again in place (30 s bound): exit 0, consumer outputs keep inode / mtime / bytes, no leftovers"
     rep.cov["samples"] = [results[0]["spec"]]
     rep.notes["input_distribution"] = {"runs": len(results), "chains": sum(1 for r in results if r["chain"]), "payload_sizes": sorted({s for r in results for s in r["sizes"]})[:40]}
     rep.assump += ["the kernel's FIFO semantics (modelled, not verified)", "maxConcurrentTasks >= 2n (the property's guard; the single-slot deadlock is a refuted lemma)"]
